@@ -149,3 +149,40 @@ package shaping
 //@   loop 1 invariant [same-direction-fixed] forall(k, 0, rangeindex+1, implies(!oppRun(finalLine, dir, k), int(finalLine[k].VisualIndex) == basePos(dir, len(finalLine), k)))
 //@   loop 1 invariant [range] forall(k, 0, rangeindex+1, 0 <= int(finalLine[k].VisualIndex) && int(finalLine[k].VisualIndex) < len(finalLine))
 //@   loop 1 invariant [all-opposite-so-far] implies(rangeindex >= 0 && forall(k, 0, rangeindex+1, oppRun(finalLine, dir, k)), bidiStart == 0)
+//
+// ---------------------------------------------------------------------------------------------
+// Properties C02/C03: run cutting and break validity. mapping is the rune -> first-glyph-of-cluster map of run.
+//@ spec isRTL(d di.Direction) bool = bool(d.Progression())
+//@ spec mapOK(run Output, mapping []int) bool = len(mapping) == run.Runes.Count && len(mapping) > 0 && len(run.Glyphs) > 0 &&
+//@   | forall(k, 0, len(mapping), 0 <= mapping[k] && mapping[k] < len(run.Glyphs)) &&
+//@   | forall(k, 0, len(mapping), forall(l, k, len(mapping), ite(isRTL(run.Direction), mapping[k] >= mapping[l], mapping[k] <= mapping[l])))
+//@ spec cutLo(run Output, startRune int) int = max(startRune-run.Runes.Offset, 0)
+//@ spec cutHi(run Output, mapping []int, endRune int) int = min(endRune-run.Runes.Offset, len(mapping)-1)
+//
+//@ func cutRun C02
+//@   mode bv
+//@   requires mapOK(run, mapping)
+//@   requires 0 <= run.Runes.Offset && run.Runes.Offset <= 1<<40 && 0 <= startRune && startRune <= endRune && endRune <= 1<<40
+//@   requires endRune >= run.Runes.Offset && startRune < run.Runes.Offset+len(mapping)
+//@   ensures [rune-start] result.Runes.Offset == max(run.Runes.Offset, startRune)
+//@   ensures [rune-end] result.Runes.Offset+result.Runes.Count-1 == min(endRune, run.Runes.Offset+len(mapping)-1)
+//@   ensures [nonempty] result.Runes.Count >= 1
+//@   ensures [glyph-lo] len(result.Glyphs) >= 0
+//@   ensures [advance] result.Advance == sumAdv(result.Glyphs, 0, len(result.Glyphs), result.Direction.IsVertical())
+//@   ensures [same-run] result.Direction == run.Direction && result.Face == run.Face && result.Size == run.Size
+//@   ensures [shares-or-copies] implies(!trimStart, rid(result.Glyphs) == rid(run.Glyphs))
+//@   modifies nothing
+//
+// isValid: "never ends inside a shaped glyph cluster".
+//@ func breakOption.isValid C03
+//@   mode bv
+//@   requires forall(k, 0, len(runeToGlyph), 0 <= runeToGlyph[k])
+//@   requires 0 <= out.Runes.Offset && out.Runes.Offset <= 1<<40 && 0 <= option.breakAtRune && option.breakAtRune <= 1<<40
+//@   ensures [never-inside-cluster] implies(result && option.breakAtRune-out.Runes.Offset >= 0 && option.breakAtRune-out.Runes.Offset+1 < len(runeToGlyph),
+//@     | runeToGlyph[option.breakAtRune-out.Runes.Offset] < len(out.Glyphs) && runeToGlyph[option.breakAtRune-out.Runes.Offset+1] < len(out.Glyphs) &&
+//@     | out.Glyphs[runeToGlyph[option.breakAtRune-out.Runes.Offset]].ClusterIndex != out.Glyphs[runeToGlyph[option.breakAtRune-out.Runes.Offset+1]].ClusterIndex)
+//@   ensures [valid-otherwise] implies(!(option.breakAtRune-out.Runes.Offset >= 0 && option.breakAtRune-out.Runes.Offset+1 < len(runeToGlyph)), result)
+//@   ensures [rejects-only-cluster-interior] implies(!result, option.breakAtRune-out.Runes.Offset >= 0 && option.breakAtRune-out.Runes.Offset+1 < len(runeToGlyph) &&
+//@     | (runeToGlyph[option.breakAtRune-out.Runes.Offset] >= len(out.Glyphs) || runeToGlyph[option.breakAtRune-out.Runes.Offset+1] >= len(out.Glyphs) ||
+//@     | out.Glyphs[runeToGlyph[option.breakAtRune-out.Runes.Offset]].ClusterIndex == out.Glyphs[runeToGlyph[option.breakAtRune-out.Runes.Offset+1]].ClusterIndex))
+//@   modifies nothing
